@@ -155,6 +155,17 @@ def check(ctx):
             add_run(c, *probes[base_n + j])
             hist_cases.append(c)
             meta[c.id] = ([("parse_sv_str", lt[:60] + "... (%d bytes)" % len(lt), None)], base_n + j)
+    # every hand-written call of the pool once in front of every probe (two-call histories, exhaustively)
+    hand_pool = [x + (None,) for x in POOL]
+    for hi, hcall in enumerate(hand_pool):
+        for pi2 in range(len(PROBES)):
+            c = Case("hP%d_%d" % (hi, pi2))
+            files(c)
+            c.add("want", "tree", "defines", "text", "state")
+            add_run(c, *hcall)
+            add_run(c, *probes[pi2])
+            hist_cases.append(c)
+            meta[c.id] = ([hcall], pi2)
     # long histories over many different constructs (per-thread tables that only ever fill up)
     allsn = snippets.sv_sources()
     for n in range(nh, nh + (2 if q else 12)):
